@@ -326,7 +326,9 @@ func c03Run(ctx *run.Ctx, id run.CaseID) {
 			t.T("PolyPathBase.ToStringInternal", func() { walk(tree.PolyPathBase) })
 		}
 		var treeD *clip.PolyTreeD
-		if t.T("BooleanOpPolyTreeD", func() { treeD = clip.BooleanOpPolyTreeD(clip.Xor, toD(rings, 10), toD(rings[:len(rings)/2], 10), fr, 1) }) && treeD != nil {
+		if t.T("BooleanOpPolyTreeD", func() {
+			treeD = clip.BooleanOpPolyTreeD(clip.Xor, toD(rings, 10), toD(rings[:len(rings)/2], 10), fr, 1)
+		}) && treeD != nil {
 			t.T("PolyPathBase.ToString", func() { _ = treeD.ToString() })
 			t.T("PolyPathBase.ToStringInternal", func() { walk(treeD.PolyPathBase) })
 		}
